@@ -29,6 +29,8 @@ pub struct SchedCfg {
     pub dim: usize,
     pub fault_period: u64,
     pub seed: u64,
+    /// 1: every evaluation of draw `num_tune` fails recoverably (the first posterior draw diverges); 2: draws num_tune-1 ..= num_tune+1
+    pub boundary_div: u8,
 }
 
 impl SchedCfg {
@@ -36,7 +38,7 @@ impl SchedCfg {
         json!({"preset": self.preset, "num_tune": self.num_tune, "num_draws": self.num_draws, "early_window": self.early_window,
             "step_size_window": self.step_size_window, "switch_freq": self.switch_freq, "early_switch_freq": self.early_switch_freq,
             "update_freq": self.update_freq, "growth": self.growth, "method": self.method, "jitter": self.jitter,
-            "target_accept": self.target_accept, "dim": self.dim, "fault_period": self.fault_period, "seed": self.seed})
+            "target_accept": self.target_accept, "dim": self.dim, "fault_period": self.fault_period, "seed": self.seed, "boundary_div": self.boundary_div})
     }
     pub fn from_json(v: &serde_json::Value) -> SchedCfg {
         SchedCfg { preset: v["preset"].as_u64().unwrap() as u8, num_tune: v["num_tune"].as_u64().unwrap(), num_draws: v["num_draws"].as_u64().unwrap(),
@@ -44,7 +46,7 @@ impl SchedCfg {
             switch_freq: v["switch_freq"].as_u64().unwrap(), early_switch_freq: v["early_switch_freq"].as_u64().unwrap(),
             update_freq: v["update_freq"].as_u64().unwrap(), growth: v["growth"].as_f64().unwrap(), method: v["method"].as_u64().unwrap() as u8,
             jitter: v["jitter"].as_f64(), target_accept: v["target_accept"].as_f64().unwrap(), dim: v["dim"].as_u64().unwrap() as usize,
-            fault_period: v["fault_period"].as_u64().unwrap(), seed: v["seed"].as_u64().unwrap() }
+            fault_period: v["fault_period"].as_u64().unwrap(), seed: v["seed"].as_u64().unwrap(), boundary_div: v["boundary_div"].as_u64().unwrap_or(0) as u8 }
     }
 }
 
@@ -76,6 +78,7 @@ macro_rules! run_chain {
         let cfg: &SchedCfg = $cfg;
         let mut target = Target::new(Kind::Diag { mu: (0..cfg.dim).map(|i| i as f64).collect(), sigma: (0..cfg.dim).map(|i| 0.5 + i as f64).collect() }, cfg.dim);
         if cfg.fault_period > 0 { target.periodic = Some((cfg.fault_period, FaultKind::Recoverable)); }
+        let fail_next = target.fail_next.clone();
         let math = CpuMath::new(target);
         let mut rng = rand::rngs::ChaCha8Rng::seed_from_u64(cfg.seed);
         let settings = $settings;
@@ -85,8 +88,12 @@ macro_rules! run_chain {
             if let Err(e) = chain.set_position(&vec![0.3; cfg.dim]) { out.error = Some(format!("set_position: {e}")); return out; }
             out.init_counters = chain.verif_strategy().verif_counters();
             out.init_ss = chain.verif_strategy().verif_step_size_state();
-            for _ in 0..(cfg.num_tune + cfg.num_draws) {
-                match chain.expanded_draw() {
+            for d in 0..(cfg.num_tune + cfg.num_draws) {
+                let forced = match cfg.boundary_div { 1 => d == cfg.num_tune, 2 => d + 1 >= cfg.num_tune && d <= cfg.num_tune + 1, _ => false };
+                fail_next.store(if forced { u64::MAX / 2 } else { 0 }, std::sync::atomic::Ordering::SeqCst);
+                let res = chain.expanded_draw();
+                fail_next.store(0, std::sync::atomic::Ordering::SeqCst);
+                match res {
                     Err(e) => { out.error = Some(format!("draw: {e}")); break; }
                     Ok((_pos, _exp, mut stats, progress)) => {
                         let dims = { let m = chain.math(); StatsDims::from(&*m) };
@@ -162,6 +169,8 @@ pub fn gen_cfg(r: &mut Sm, case: u64, tier: &str) -> SchedCfg {
         target_accept: r.range(0.5, 0.95), dim,
         fault_period: if r.below(3) == 0 { 7 + r.below(40) } else { 0 },
         seed: r.next(),
+        // every fifth case: divergent draws at the warmup / sampling boundary (all presets)
+        boundary_div: if case % 5 == 2 { 1 + (case / 5 % 2) as u8 } else { 0 },
     }
 }
 
@@ -188,6 +197,21 @@ fn oracle(cfg: &SchedCfg, run: &SchedRun) -> Option<(String, String)> {
                 return Some(("sched.frozen".into(), format!("transformation changed (id {last_id} -> {id}) at draw {d} >= final step-size window start {final_window}")));
             }
             last_id = last_id.max(id);
+        }
+    }
+    // C09: divergent or stuck draws are not counted: a draw that stayed at the start of its trajectory (index 0), or a divergent one within four
+    // steps of it, never adds a sample to the background estimator; every other draw of the mass-matrix phase adds exactly one (or the
+    // window switched: the background estimator was emptied)
+    for (d, rec) in run.draws.iter().enumerate() {
+        if d as u64 >= final_window.min(cfg.num_tune) { break; }
+        let prev_bg = if d == 0 { run.init_counters[8] } else { run.draws[d - 1].counters[8] };
+        let good = if rec.diverging { rec.idx.unsigned_abs() > 4 } else { rec.idx != 0 };
+        let bg = rec.counters[8];
+        if !good && bg > prev_bg {
+            return Some(("sched.rejected_draw_counted".into(), format!("draw {d} (diverging {}, index_in_trajectory {}) must not be used by the estimators, but the background count went {prev_bg} -> {bg}", rec.diverging, rec.idx)));
+        }
+        if good && !(bg == prev_bg + 1 || bg == 0) {
+            return Some(("sched.good_draw_not_counted".into(), format!("draw {d} (diverging {}, index_in_trajectory {}) is an accepted draw, but the background count went {prev_bg} -> {bg}", rec.diverging, rec.idx)));
         }
     }
     // C09: the first transformation change re-runs the step-size search (the `has_initial_mass_matrix` flag is consumed by it)
